@@ -40,6 +40,19 @@ def build_model(c):
     m.constraints.minComposition = float(c["minc"])
     m.constraints.vonNeumannThreshold = float(c["threshold"])
     m.useCache(c.get("cache", False))
+    T = {"flux": BoundaryConditions.FLUX_BC, "comp": BoundaryConditions.COMPOSITION_BC}
+    # boundary conditions may be entered in any order of the elements (and only for some of them: the others default to closed)
+    order = list(range(E))
+    if c.get("bcorder") == "reversed":
+        order = order[::-1]
+    for e in order:
+        bc = c["bc"][e]
+        if c.get("bcorder") == "only-nondefault" and bc["lt"] == "flux" and bc["rt"] == "flux" and bc["lv"] == 0 and bc["rv"] == 0:
+            continue
+        if E == 1 and c.get("bcorder") == "no-element":
+            m.setBC(T[bc["lt"]], float(bc["lv"]), T[bc["rt"]], float(bc["rv"]))        # element omitted: the (only) independent element, as for the setComposition helpers
+        else:
+            m.setBC(T[bc["lt"]], float(bc["lv"]), T[bc["rt"]], float(bc["rv"]), ELS[e + 1])
     for e in range(E):
         el = ELS[e + 1]
         m.compositionProfile.clearCompositionBuildSteps(el)
@@ -54,9 +67,6 @@ def build_model(c):
                 m.compositionProfile.addFunctionCompositionStep(el, lambda z, a=a, b=b: a + b * z)
             elif k == "profile":
                 m.compositionProfile.addProfileCompositionStep(el, [float(v) for v in st["xs"]], [float(v) for v in st["zs"]])
-        bc = c["bc"][e]
-        T = {"flux": BoundaryConditions.FLUX_BC, "comp": BoundaryConditions.COMPOSITION_BC}
-        m.setBC(T[bc["lt"]], float(bc["lv"]), T[bc["rt"]], float(bc["rv"]), el)
     if c["tfield"] == "const":
         m.setTemperature(1000)
     elif c["tfield"] == "node":
@@ -172,5 +182,6 @@ def gen_cases(rng, tier):
         meshtimes = [Fr(-1), Fr(0), dt0 / 2, dt0, dt0 * Fr(5, 4), total, total + 1]
         cases.append(dict(meshtimes=meshtimes, N=N, E=E, z0=z0, z1=z1, build=build, bc=bc, minc=Fr(1, 256), threshold=threshold,
                           iter=it, A=A, B=B, tfield=tfield, tswitch=calls[0] * Fr(3, 4), calls=calls, mindt=Fr(1, 2 ** 10), fuel=12,
-                          cache=rng.random() < 0.3 and all(v == 0 for r in B for v in r)))
+                          cache=rng.random() < 0.3 and all(v == 0 for r in B for v in r),
+                          bcorder=(rng.choice(["element", "reversed", "only-nondefault"]) if E == 2 else rng.choice(["element", "element", "no-element"]))))
     return cases
